@@ -84,6 +84,15 @@ func main() {
 		tier := fs.String("tier", "quick", "quick|thorough")
 		fs.Parse(os.Args[2:])
 		os.Exit(cmdCheck(*repo, *prop, *tier))
+	case "replay":
+		fs := flag.NewFlagSet("replay", flag.ExitOnError)
+		repo := fs.String("repo", "/repo", "repository")
+		fs.Parse(os.Args[2:])
+		if fs.NArg() != 1 {
+			fmt.Fprintln(os.Stderr, "usage: rosvc replay [-repo dir] <replay-file>")
+			os.Exit(2)
+		}
+		os.Exit(cmdReplay(*repo, fs.Arg(0)))
 	default:
 		fmt.Fprintln(os.Stderr, "unknown command", os.Args[1])
 		os.Exit(2)
